@@ -172,7 +172,11 @@ static uint64_t special_pattern(vp_rng_t* r, const vss_dt_t* dt, uint32_t k)
 static uint32_t len_class(vp_rng_t* r, uint32_t k, uint32_t max)
 {
     uint32_t v;
-    switch (k % 12) {
+    switch (k % 15) {
+    /* exact powers of two and their small multiples (block sizes of chunked copy / conversion loops), and their neighbours */
+    case 12: v = (uint32_t)1 << (4 + vp_rng_below(r, 12)); break;
+    case 13: { uint32_t b = (uint32_t)1 << (4 + vp_rng_below(r, 12)); v = (vp_rng_next(r) & 1) ? b + 1 : b - 1; break; }
+    case 14: { static const uint32_t mm[] = { 2, 3, 5, 6, 7 }; v = mm[vp_rng_below(r, 5)] << (5 + vp_rng_below(r, 9)); break; }
     case 0: v = 0; break;
     case 1: v = 1; break;
     case 2: v = 2; break;
@@ -364,6 +368,21 @@ static void do_encode_case(vp_ctx_t* c, uint64_t idx)
         int bad = check_msg(c, &m, "encode", v.dt->kind == VK_RESERVED ? "value-reserved-datatype" : "value", dtn, v.P, v.D);
         check_obj(c, "encode", "set-data", dtn, "source-object");
         if (!bad && v.D > 0) g_nontrivial++;
+        /* finalising the message just built (and the same message followed by 1..2 application bytes): Avtp_Vss_Pad sees a
+         * real, consistent message - datatype, path and value lengths that add up - not only random bytes (C09) */
+        if (v.dt->kind != VK_RESERVED) for (uint32_t extra = 0; extra < 3; extra++) {
+            size_t pn = total + extra;
+            if (pn < 12 || pn > 2044) break;
+            uint32_t ppad = (uint32_t)((4 - pn % 4) % 4);
+            vp_rng_fill(&c->rng, m.p + total, extra + ppad + 8);
+            for (size_t q = 0; q < extra + ppad; q++) if (m.p[total + q] == 0) m.p[total + q] = 0x5C;      /* dirty, so that a missing or misplaced clear shows */
+            memcpy(m.s + total, m.p + total, extra + ppad + 8);
+            bf_set(m.s, POS_LEN, 9, (pn + ppad) / 4); bf_set(m.s, POS_PAD, 2, ppad); memset(m.s + pn, 0, ppad);
+            vp_curop("vss-pad-after-encode", dtn, "", pn);
+            vp_call(c);
+            Avtp_Vss_Pad((Avtp_Vss_t*)m.p, (uint16_t)pn);
+            check_msg(c, &m, "encode", "pad-after-encode", dtn, v.P, v.D);
+        }
         if (!bad && (idx % 37) == 5) sample_case(c, "encode", &v, m.p, total);
         if (src) rfree(src, g_src_kk);
     } else g_nontrivial++;
@@ -692,7 +711,7 @@ static void do_strarr_case(vp_ctx_t* c, uint64_t idx)
     }
     static uint16_t lens[MAXSTR]; static uint8_t* strs[MAXSTR];
     size_t total = 0;
-    uint32_t lmode = (uint32_t)((idx / 10) % 5);
+    uint32_t lmode = (uint32_t)((idx / 10) % 6);
     for (uint32_t i = 0; i < n; i++) {
         uint32_t l;
         switch (lmode) {
@@ -700,6 +719,7 @@ static void do_strarr_case(vp_ctx_t* c, uint64_t idx)
         case 1: l = (uint32_t)vp_rng_below(r, 300); break;
         case 2: l = (i + 1 == n) ? 0 : (uint32_t)vp_rng_below(r, 9); break;   /* empty last string */
         case 3: l = (i == 0 && n < 4) ? 65533 - 2 * (n - 1) : 0; break;         /* one huge string filling the array */
+        case 5: l = (i == (n > 2 ? 1u : 0u)) ? 32760 + (uint32_t)vp_rng_below(r, 8000) : (uint32_t)vp_rng_below(r, 6); break;   /* a string longer than 32767 bytes that is not the last one */
         default: l = (uint32_t)vp_rng_below(r, 20); break;
         }
         if (total + 2 + l > 65535) { n = i; break; }
